@@ -172,6 +172,9 @@ def check(model, rep, tier):
     C01_frames.frames_clause(model, rep, funcs)
     from .C03 import batch_task_order_obligation
     batch_task_order_obligation(model, rep, "4 routing")
+    from .C05 import window_cover_obligations
+    window_cover_obligations(model, rep, "1 units")
+    rep.floor("COVER.window", 3, "(PCC refinement window, three axes)")
     ncen = 0
     for a in ("acryo/alignment/_base.py::AlignmentResult.affine_matrix", "acryo/alignment/_base.py::RotationImplemented._get_template_and_mask_input"):
         try:
